@@ -99,7 +99,7 @@ func coqCase(in *input, o *obs) string {
 	case "other":
 		ident = fmt.Sprintf("(IdKey %d)", in.Ident.Key)
 	}
-	return fmt.Sprintf("Case %s %s %s %s (Hello %s %d) %s %d (Obs %s %d %s %s)", lvl, role, coqSuite(in.Suite),
+	return fmt.Sprintf("Case %s %s %s %s (Hello %s %d) %s %d (Obs %s %d %s %s %s)", lvl, role, coqSuite(in.Suite),
 		lib.NatList(in.Holds), coqChain(in.Chain, o.absCtx), in.HSKey, ident, in.Msgs,
 		lib.Bool(o.Handshake), o.Dispatched, lib.NatList(o.Stamped), lib.Bool(o.Crash != ""),
 		lib.Bool(!strings.HasPrefix(o.HonestProof, "bad")))
@@ -727,10 +727,16 @@ func runAccept(in *input, w *world, h *honest) (o obs) {
 	if in.Ident.Kind == "wrongtype" {
 		want++
 	}
+	status := ""
 	if want == 0 {
-		want = 1 // nothing to be served: only a close ends the wait
+		// nothing to be served: a close may still come; its absence is not a hang
+		if status = h.waitDispatched(1, closed, 3*time.Second); status == "hang" {
+			status = "served"
+		}
+	} else {
+		status = h.waitDispatched(want, closed, serveDeadline)
 	}
-	switch h.waitDispatched(want, closed, serveDeadline) {
+	switch status {
 	case "closed":
 		if rerr != nil && strings.Contains(rerr.Error(), "remote error: tls:") {
 			o.Reason = "alert: " + clip(rerr.Error())
